@@ -367,10 +367,10 @@ func (c *Case) Logf(format string, args ...interface{}) {
 
 type Family struct {
 	Name   string
-	N      int          // number of cases
-	Do     func(*Case)  // one case; must be deterministic given c.R
-	Serial bool         // run cases one after another (e.g. cases that are internally parallel)
-	Par    int          // override worker count (0 = NumCPU)
+	N      int         // number of cases
+	Do     func(*Case) // one case; must be deterministic given c.R
+	Serial bool        // run cases one after another (e.g. cases that are internally parallel)
+	Par    int         // override worker count (0 = NumCPU)
 }
 
 func (r *Run) runCase(f *Family, idx int) {
